@@ -524,6 +524,18 @@ def exhaustive_presentations():
 
 
 # ------------------------------------------------------------------ the check
+def run_go_parallel(ck, cases, procs=8):
+    """The harness is single-threaded: run contiguous chunks of the case list in parallel."""
+    if len(cases) < 64:
+        return ck.run_go("c05", cases, timeout=6000)
+    from concurrent.futures import ThreadPoolExecutor
+    n = (len(cases) + procs - 1) // procs
+    chunks = [cases[i:i + n] for i in range(0, len(cases), n)]
+    with ThreadPoolExecutor(max_workers=procs) as ex:
+        res = list(ex.map(lambda ch: ck.run_go("c05", ch, timeout=6000), chunks))
+    return [o for r in res for o in r]
+
+
 def load_corpus():
     here = os.path.dirname(os.path.abspath(__file__))
     out = []
@@ -565,8 +577,8 @@ def run(ck):
                           "pres": presentations(prog, rng, bool(prog.get("temporal"))), "repeat": 8,
                           "features": prog.get("features", []) + ["corpus"]})
     ncorpus = len(items)
-    nplain = ck.n(50, 900)
-    ntemp = ck.n(40, 700)
+    nplain = ck.n(28, 400)
+    ntemp = ck.n(32, 400)
     for _ in range(nplain):
         prog = dc.gen_program(rng, big=(not ck.quick) and rng.random() < 0.4)
         items.append({"origin": "random", "prog": prog, "temporal": False, "pres": presentations(prog, rng),
@@ -610,13 +622,13 @@ def run(ck):
                 if j == 0:
                     rep = 1
             else:
-                # thorough: base 7 kinds x 2 x 4 = 56 runs, every other presentation 2 kinds x 2 x 3
+                # thorough: base 7 kinds x 2 x 4 = 56 runs, every other presentation 2 kinds x 2 x 2
                 stores = ALL_STORES if j == 0 else rng.sample(ALL_STORES, 2)
                 det = [False, True]
-                rep = 4 if j == 0 else 3
+                rep = 4 if j == 0 else 2
             go_cases.append(go_case(pres, stores, det, rep, it["temporal"]))
             owner.append((i, j))
-    outs = ck.run_go("c05", go_cases, timeout=6000)
+    outs = run_go_parallel(ck, go_cases)
     ck.log("go side done: %d programs, %d presentations" % (len(items), len(go_cases)))
 
     # ---- compare the presentations of every program
@@ -709,7 +721,8 @@ def run(ck):
                               "program": it["prog"], "units": it["pres"][0].units})
         # the verified observer on one pair of presentations per program
         oks = [x for x in concl if x[2][0] == "ok"]
-        if len(oks) >= 2 and it["origin"].startswith(("random", "corpus")):
+        if len(oks) >= 2 and (it["origin"].startswith("corpus") or
+                              (it["origin"].startswith("random") and (it["temporal"] or rng.random() < 0.35))):
             a, b = oks[0], rng.choice(oks[1:])
             terms.append(coq(C("CSame", [cq_fact_any(f) for f in a[2][2]], [cq_fact_any(f) for f in b[2][2]])))
             twhere.append((i, "same"))
